@@ -3,6 +3,7 @@ package main
 
 import (
 	_ "go.nanomsg.org/mangos/v3/vh/c02"
+	_ "go.nanomsg.org/mangos/v3/vh/cblk"
 	_ "go.nanomsg.org/mangos/v3/vh/c03"
 	_ "go.nanomsg.org/mangos/v3/vh/c04"
 	_ "go.nanomsg.org/mangos/v3/vh/c05"
